@@ -103,6 +103,11 @@ class _Rec(Expand):
         self._note(stmt, state)
         return Expand.transfer(self, stmt, state)
 
+    def run_stmt(self, stmt, state):
+        if state is not None:
+            self._note(stmt, state)
+        return Expand.run_stmt(self, stmt, state)
+
     def eval_test(self, expr, state):
         self._note(expr, state)
         return state
